@@ -2,10 +2,112 @@
 use crate::sx::*;
 use acpi_tables::Aml;
 
+use acpi_tables::AmlSink;
+use std::cell::Cell;
+
+thread_local! {
+    /// which sink `serialise` uses: 0 Vec<u8>, 1 byte-only sink, 2 sink overriding every method, 3 Checksum (+ u8sum),
+    /// 4 Sdt, 5 PackageBuilder
+    pub static SINK_MODE: Cell<u8> = Cell::new(0);
+    /// observations that disagreed between a sink and the plain vector (C14)
+    pub static SINK_MISMATCH: Cell<u64> = Cell::new(0);
+}
+
+/// a sink that implements only the mandatory single-byte method
+struct ByteOnly(Vec<u8>);
+impl AmlSink for ByteOnly {
+    fn byte(&mut self, byte: u8) {
+        self.0.push(byte);
+    }
+}
+
+/// a sink that overrides every method and records how it was called
+#[derive(Default)]
+struct Recorder {
+    bytes: Vec<u8>,
+    calls: [u64; 5],
+}
+impl AmlSink for Recorder {
+    fn byte(&mut self, byte: u8) {
+        self.calls[0] += 1;
+        self.bytes.push(byte);
+    }
+    fn word(&mut self, word: u16) {
+        self.calls[1] += 1;
+        self.bytes.extend_from_slice(&word.to_le_bytes());
+    }
+    fn dword(&mut self, dword: u32) {
+        self.calls[2] += 1;
+        self.bytes.extend_from_slice(&dword.to_le_bytes());
+    }
+    fn qword(&mut self, qword: u64) {
+        self.calls[3] += 1;
+        self.bytes.extend_from_slice(&qword.to_le_bytes());
+    }
+    fn vec(&mut self, v: &[u8]) {
+        self.calls[4] += 1;
+        self.bytes.extend_from_slice(v);
+    }
+}
+
+fn note_mismatch() {
+    SINK_MISMATCH.with(|m| m.set(m.get() + 1));
+}
+
+/// serialises through the sink selected by SINK_MODE and returns the byte stream that sink received
+pub fn serialise(t: &dyn Aml) -> Vec<u8> {
+    match SINK_MODE.with(|m| m.get()) {
+        0 => {
+            let mut v = Vec::new();
+            t.to_aml_bytes(&mut v);
+            v
+        }
+        1 => {
+            let mut s = ByteOnly(Vec::new());
+            t.to_aml_bytes(&mut s);
+            s.0
+        }
+        2 => {
+            let mut s = Recorder::default();
+            t.to_aml_bytes(&mut s);
+            s.bytes
+        }
+        3 => {
+            // the checksum sink only keeps a sum: check it (and the u8sum helper) against the plain vector
+            let mut v = Vec::new();
+            t.to_aml_bytes(&mut v);
+            let sum = v.iter().fold(0u8, |a, x| a.wrapping_add(*x));
+            let mut c = acpi_tables::Checksum::default();
+            t.to_aml_bytes(&mut c);
+            if c.raw_value() != sum || acpi_tables::u8sum(t) != sum {
+                note_mismatch();
+            }
+            v
+        }
+        4 => {
+            let mut s = acpi_tables::sdt::Sdt::new(*b"SINK", 36, 1, *b"OEMOEM", *b"OEMTABLE", 1);
+            t.to_aml_bytes(&mut s);
+            let all = s.as_slice();
+            // the generic table maintains its own header: Length must have followed the pushes
+            if u32::from_le_bytes([all[4], all[5], all[6], all[7]]) as usize != all.len() {
+                note_mismatch();
+            }
+            all[36..].to_vec()
+        }
+        _ => {
+            let mut pb = acpi_tables::aml::PackageBuilder::new();
+            t.to_aml_bytes(&mut pb);
+            let mut v = Vec::new();
+            pb.to_aml_bytes(&mut v);
+            // PackageOp PkgLength NumElements(0) data
+            let pl = (v[1] >> 6) as usize + 1;
+            v[1 + pl + 1..].to_vec()
+        }
+    }
+}
+
 pub fn image(t: &dyn Aml) -> Ev {
-    let mut v = Vec::new();
-    t.to_aml_bytes(&mut v);
-    Ev::Bytes(v)
+    Ev::Bytes(serialise(t))
 }
 
 /// (oem_id, oem_table_id, oem_revision) from the first three items of a constructor
